@@ -39,10 +39,14 @@ RankA == 1 + ((P.seed * 7919 + 4001) % 10005)
 RankB == (P.seed * 101) % 10007
 Rank(u) == (u * RankA + RankB) % 10007       \* injective on 1..10006 (10007 is prime)
 
-RECURSIVE Pick(_, _)
-Pick(S, r) == IF S = {} \/ r = 0 THEN {}
-              ELSE LET m == CHOOSE x \in S : \A y \in S : Rank(x) <= Rank(y)
-                   IN {m} \cup Pick(S \ {m}, r - 1)
+\* the universe in rank order; Pick scans it (a set that is small enough is taken whole)
+Order == SortSeq([i \in 1..N |-> i], LAMBDA a, b : Rank(a) < Rank(b))
+
+RECURSIVE PickFrom(_, _, _)
+PickFrom(S, r, k) == IF r = 0 \/ k > N THEN {}
+                     ELSE IF Order[k] \in S THEN {Order[k]} \cup PickFrom(S, r - 1, k + 1)
+                     ELSE PickFrom(S, r, k + 1)
+Pick(S, r) == IF Cardinality(S) <= r THEN S ELSE PickFrom(S, r, 1)
 
 -----------------------------------------------------------------------------
 (* Index of the universe.                                                   *)
